@@ -109,6 +109,8 @@ def main(chk):
             y = Q @ x
             if not noise_free:
                 y = y + np.array([rng.choice([-2, -1, -0.5, 0, 0.5, 1, 3]) for _ in range(len(y))])
+                if rng.random() < 0.15:
+                    y = y - rng.choice([1.0, 2.0]) * (N + 3.0)      # noise dominates: the unbiased estimate is below 1 / negative, the floor at 1 applies
             spelling = rng.choice(['dense', 'sparse', 'operator'])
             Qs = {'dense': Q, 'sparse': sparse.csr_matrix(Q), 'operator': aslinearoperator(Q)}[spelling]
             ms.append((Qs, y, sigma, (a,)))
